@@ -356,6 +356,7 @@ class Lattice:
         """
         obj = cls.__new__(cls)  # create class instance, no __init__() call
         hdf5_loader.memorize_load(h5gr, obj)
+        obj._from_hdf5_first(hdf5_loader, h5gr, subpath)
 
         obj.unit_cell = hdf5_loader.load(subpath + 'unit_cell')
         Ls = hdf5_loader.load(subpath + 'lengths')
@@ -378,6 +379,10 @@ class Lattice:
             obj.position_disorder = None
         obj.test_sanity()
         return obj
+
+    def _from_hdf5_first(self, hdf5_loader, h5gr, subpath):
+        """Hook for subclasses: load attributes needed by `_set_Ls` / the `order` setter."""
+        pass
 
     @property
     def basis(self):
@@ -2325,13 +2330,11 @@ class HelicalLattice(Lattice):
     def save_hdf5(self, hdf5_saver, h5gr, subpath):
         super().save_hdf5(hdf5_saver, h5gr, subpath)
         hdf5_saver.save(self.regular_lattice, subpath + 'regular_lattice')
-        h5gr.attrs['N_unit_cells'] = self.N_sites
+        h5gr.attrs['N_unit_cells'] = self._N_cells
 
-    @classmethod
-    def from_hdf5(cls, hdf5_loader, h5gr, subpath):
-        obj = super().from_hdf5(hdf5_loader, h5gr, subpath)
-        obj._N_cells = hdf5_loader.get_attr(h5gr, 'N_unit_cells')
-        return obj
+    def _from_hdf5_first(self, hdf5_loader, h5gr, subpath):
+        self._N_cells = int(hdf5_loader.get_attr(h5gr, 'N_unit_cells'))
+        self.regular_lattice = hdf5_loader.load(subpath + 'regular_lattice')
 
     def ordering(self, order):
         """Provide possible orderings of the lattice sites.
